@@ -380,6 +380,14 @@ class ConfigManager:
         self.configs.append(config_data)
         self.config_sources.append(config)
         for name in config_data:
+            if name in self.rendered_sections:
+                # collapsed in the meantime by an autoload section of this
+                # very config that comes before it: same confusion as above,
+                # the cached section would hide this definition for good
+                raise errors.ConfigurationError(
+                    "New config is trying to modify existing section(s) "
+                    f"{name!r} that was already instantiated."
+                )
             self.sections_lookup[name].appendleft(config_data[name])
 
             # Do not even touch the ConfigSection if it's not an autoload.
